@@ -182,6 +182,17 @@ Theorem rpad_len_any_pad : forall off s ps k l, slen s <= l -> exists r,
   slen r = slen s + (l - slen s) * slen ps /\ exists pad, r = s ++ pad.
 Proof. exact BuiltinFacts.rpad_len_any_pad. Qed.
 
+(* FINDING: lengths and positions are BYTE counts.  Reading "one-character pad" as one Unicode
+   character, lpad("7", "\u00e9", 3) has 5 bytes, and left / lpad / rpad can cut a multi-byte
+   character in half ([195; 169] is U+00E9 in UTF-8) *)
+Theorem byte_semantics_witnesses :
+  builtin_apply 0 (str "lpad") [VStr (str "7"); VStr [195; 169]; gi 3] = Ok (VStr [195; 169; 195; 169; 55]) /\
+  slen [195; 169; 195; 169; 55] = 5 /\
+  builtin_apply 0 (str "left") [VStr [195; 169]; gi 1] = Ok (VStr [195]) /\
+  builtin_apply 0 (str "lpad") [VStr [195; 169; 120]; VStr (str "0"); gi 1] = Ok (VStr [195]) /\
+  builtin_apply 0 (str "len") [VStr [195; 169]] = Ok (gi 2).
+Proof. exact BuiltinFacts.byte_semantics_witnesses. Qed.
+
 Theorem pad_panics_negative : forall off s ps k l, l < 0 ->
   builtin_apply off (str "lpad") [VStr s; VStr ps; VGoInt k l] = Panic /\
   builtin_apply off (str "rpad") [VStr s; VStr ps; VGoInt k l] = Panic.
@@ -330,6 +341,7 @@ Print Assumptions rpad_prefix.
 Print Assumptions pad_truncates.
 Print Assumptions lpad_len_any_pad.
 Print Assumptions rpad_len_any_pad.
+Print Assumptions byte_semantics_witnesses.
 Print Assumptions pad_panics_negative.
 Print Assumptions replaced_unfold.
 Print Assumptions replaced_unique.
